@@ -81,8 +81,33 @@ func (g *Gen) valList(n int, sigs []fnSig, inVararg bool, depth int) []Expr {
 		for i, m := 0, g.R.Intn(5); i < m; i++ {
 			args = append(args, g.simpleVal())
 		}
+		if g.R.Intn(3) == 0 {
+			// exactly one value, however many the host function leaves above its arguments
+			out = append(out, &EParen{X: CallN(hn, args...)})
+			g.cover("tail:paren-" + hn)
+			break
+		}
 		out = append(out, CallN(hn, args...))
 		g.cover("tail:" + hn)
+	case 7:
+		if g.R.Intn(2) == 0 {
+			// a parenthesised call of a library function (its arguments stay below its results)
+			var e Expr
+			switch g.R.Intn(5) {
+			case 0:
+				e = CallN("tostring", g.simpleVal())
+			case 1:
+				e = CallN("select", Num(float64(1+g.R.Intn(2))), g.simpleVal(), g.simpleVal(), g.simpleVal())
+			case 2:
+				e = CallN("unpack", &ETable{Items: []TItem{{Kind: TPos, Val: Num(7)}, {Kind: TPos, Val: Num(8)}, {Kind: TPos, Val: Num(9)}}})
+			case 3:
+				e = &EMethod{Obj: Str("abca"), Name: "byte", Args: []Expr{Num(float64(1 + g.R.Intn(2))), Num(float64(2 + g.R.Intn(3)))}}
+			default:
+				e = CallN("rawget", &ETable{Items: []TItem{{Kind: TPos, Val: g.simpleVal()}}}, Num(1))
+			}
+			out = append(out, &EParen{X: e})
+			g.cover("tail:paren-library-call")
+		}
 	}
 	return out
 }
